@@ -116,6 +116,8 @@ def run(chk):
     avx512last.run(chk)
     from lib import lanemask
     lanemask.run(chk)
+    from lib import evexindicators
+    evexindicators.run(chk)
     return chk.finish(
         level="other",
         explanation=("Table/database agreement clauses: the RW, flag, feature and rm tables regenerate byte-identically from db/ with the "
